@@ -288,9 +288,9 @@ def step (q : Quirks) (c : Cfg) (op : Op) (cut : Option Nat) : Option Cfg :=
           if q.requestFromTimer then some (c.handler pre { v with timers := insertNat id v.timers } cut)
           else
             -- crash-safe: the request is sent by the handler that accepts the event, before anything else it does
-            -- (the deferred handler is still armed, and has nothing left to do)
+            -- (the deferred handler has nothing left to do: see `tm`)
             let send : List Act := if m.redelivered then [] else [.pubReq id]
-            some (c.handler (send ++ pre) { v with pending := insertNat id v.pending, timers := insertNat id v.timers } cut)
+            some (c.handler (send ++ pre) { v with pending := insertNat id v.pending } cut)
         | .wait _ | .par _ _ _ => some (c.handler pre { v with timers := insertNat id v.timers } cut)
         | .step rest =>
           let (acts, js) := advance q (fuelOf c) id rest stack none v.joins
@@ -299,7 +299,15 @@ def step (q : Quirks) (c : Cfg) (op : Op) (cut : Option Nat) : Option Cfg :=
           let (acts, js) := advance q (fuelOf c) id .done stack none v.joins
           some (c.handler (pre ++ acts) { v with joins := js } cut)
   | .tm id =>
-    if !c.timers.contains id then none else
+    if !c.timers.contains id then
+      -- crash-safe protocol: the deferred handler of a Task whose request went out with the delivery has nothing to do
+      (match findEv c id true with
+       | some m => (match m.kind with
+         | .visit (.task _) _ _ | .visit .taskFail _ _ =>
+           if q.requestFromTimer then none else some (c.handler [] c.vol cut)
+         | _ => none)
+       | none => none)
+    else
     match findEv c id true with
     | none => none
     | some m =>
